@@ -199,6 +199,13 @@ fn parse_eq_delegate_by(
         return Ok(SpanOpt(Delegate::ByRef(RefDelegate::AsRef), span));
     }
 
+    // `Self` is a keyword and does not parse as an identifier
+    if input.peek(syn::token::SelfType) {
+        let _: syn::token::SelfType = input.parse()?;
+
+        return Ok(SpanOpt(Delegate::BySelf, span));
+    }
+
     let ident = input.parse::<syn::Ident>()?;
 
     Ok(SpanOpt(
